@@ -35,7 +35,15 @@ SHORT.update({
  'C06-2': ('`handleIncomingRequest` compares the announced key with `bytes.EqualFold` and records the announced contact unchanged', 'a requester announcing a fold-equivalent variant of its authenticated key'),
  'C07-2': ('`ContactRequestOutgoingSent` guard loses `ContactStateRemoved`', 'block, unblock, enqueue'),
  'C08-2': ('`getOrCreateDeviceCache` releases `muDeviceCaches` around the chain-key lookup', 'key registered between the lookup and the insertion of the new device cache'),
- 'C09-2': ('(see seeded/C09-2/meta.json)', ''),
+ 'C09-2': ('`getOwnDeviceChainKeyForGroup` creates the own chain key under a narrowed lock without re-reading: a second first-user hands out a key that was never stored', 'two concurrent first uses of a group (two SendSecret, or PutGroup racing SendSecret)'),
+ 'C13-2': ('`MessageStore.ListEvents` reads `GetEntries()` (arrival order) instead of `Values()`', 'a replica that received entries in a batch'),
+ 'C14-2': ('`UpdateOutOfStoreGroupReferences` treats the stored last counter as inclusive: a reference is never created when the window slides', 'in-order log delivery, then a push at the upper part of the window'),
+ 'C15-2': ('`PriorityQueue.Next` calls the type\'s own `Pop` (last slot) instead of `heap.Pop`', 'two or more items pending'),
+ 'C16-2': ('(see seeded/C16-2/meta.json)', ''),
+ 'C17-2': ('clean-up delay of the previous rotation value clamped with `min` instead of `max`: deleted at once', 'a lookup by the previous value during the grace period'),
+ 'C18-2': ('uint32 reader reads its 4-byte prefix with `Read` instead of `io.ReadFull`', 'a transport that returns part of a length prefix'),
+ 'C19-2': ('`getEntriesInRange` skips the since-after-until check when `until` is the first entry', 'inverted range whose `until` is entry 0: slice bounds panic'),
+ 'C20-2': ('`restoreAccountKeys` refuses only when BOTH keys exist', 'restore onto a store holding only one of the two lazily created keys'),
  'C10-2': ('chain key of a peer device persisted before the batch of precomputed message keys', 'a crash between the two writes of a registration'),
  'C11-2': ('contact-group key cached under the member-key namespace', 'a multi-member group whose identifier equals a contact account key'),
  'C12-2': ('`FilterGroupForReplication` returns its input unchanged when `SignPub` and a 32-byte `LinkKey` are set', 'an invitation that carries those optional public fields'),
